@@ -129,7 +129,7 @@ static void sec_meta(Ctx& c, uint64_t) {
     if ((M.ntie || extratie) && std::fabs(err - 0.5 * A0) <= 1e-6 * A0) kk += "/off-by-half-ellipsoid-area/edge-between-opposite-meridians";
     if (env.be == B_RH_EXACT && (M.nrhtiny || extra_rhtiny)) c.viol("regime:C08/rhumb-exact/edge-with-nonzero-latitude-below-1e-290deg", cls, J(d).str("monitor", kk));
     else if (env.be == B_RH_EXACT && env.f < 0 && (M.nrheq || extra_rheq)) c.viol("regime:C08/rhumb-exact/prolate-ellipsoid-edge-near-equator-same-side", cls, J(d).str("monitor", kk));
-    else if ((env.be == B_EXACT || env.be == B_DELEG) && env.f < -0.2 && (M.npreq || extra_preq)) c.viol("regime:C08/geod-exact/strongly-prolate-ellipsoid-inverse-edge-within-1e-8deg-of-equator", cls, J(d).str("monitor", kk));
+    else if ((env.be == B_EXACT || env.be == B_DELEG) && env.f < -0.2 && (M.npreq || extra_preq)) c.viol("regime:C08/geod-exact/strongly-prolate-ellipsoid-near-equatorial-nearly-antipodal-inverse-edge", cls, J(d).str("monitor", kk));
     else if ((env.be == B_EXACT || env.be == B_DELEG) && env.f > 0.5 && (M.npreq || extra_preq)) c.viol("regime:C08/geod-exact/strongly-oblate-ellipsoid-inverse-edge-within-1e-8deg-of-equator", cls, J(d).str("monitor", kk));
     else c.viol(kk, cls, d); };
   double tolA = env.K * (double)M.tolA, tolP = env.K * (double)M.tolP;
